@@ -442,6 +442,61 @@ func c18(c *Ctx) {
 			c.checkLogConversions(fi, sites, false)
 		}
 	}
+	// the two readers of the store do not reject what unmarshals: the writers store every entry raft hands them (commands,
+	// configuration changes, barriers, no-ops), so a reader that validates more than the decoding refuses entries the store
+	// acknowledged
+	for _, name := range []string{"raftlog.FromBytes", "raftstore.(*LevelDBStore).GetLog"} {
+		fi := c.MustFunc(name)
+		if fi == nil || fi.Body() == nil {
+			continue
+		}
+		info := fi.Info()
+		g := c.Graph(fi)
+		isUnm := func(call *ast.CallExpr) bool {
+			fn := astx.Callee(info, call)
+			return fn != nil && fn.Name() == "Unmarshal" && fn.Pkg() != nil && (strings.HasSuffix(fn.Pkg().Path(), "/proto") || fn.Pkg().Path() == "encoding/json")
+		}
+		uV := -1
+		for _, v := range g.Nodes() {
+			for _, call := range astx.Calls(v.Node, false) {
+				if fn := astx.Callee(info, call); fn != nil && isUnm(call) && strings.HasSuffix(fn.Pkg().Path(), "/proto") && uV < 0 {
+					uV = v.ID
+				}
+			}
+		}
+		if uV < 0 {
+			r.Break("C18.F2: no proto.Unmarshal call found in %s", name)
+			continue
+		}
+		reach := g.Reach(uV, nil, nil)
+		nRet := 0
+		for _, rv := range g.Returns() {
+			if !reach[rv.ID] {
+				continue
+			}
+			rs := rv.Node.(*ast.ReturnStmt)
+			if len(rs.Results) == 0 {
+				continue
+			}
+			nRet++
+			last := ast.Unparen(rs.Results[len(rs.Results)-1])
+			ok := false
+			if id, isID := last.(*ast.Ident); isID && id.Name == "nil" && info.Uses[id] == types.Universe.Lookup("nil") {
+				ok = true
+			} else if call, isCall := last.(*ast.CallExpr); isCall && isUnm(call) {
+				ok = true
+			} else if d := uniqueDef(info, fi.Node(), last); d != nil {
+				if call, isCall := ast.Unparen(d).(*ast.CallExpr); isCall && isUnm(call) {
+					ok = true
+				}
+			}
+			r.Check(ok, "C18.F2", fi.Name(), "after the bytes unmarshalled the entry is returned, not rejected", c.P.Pos(rs.Pos()), "error result is nil or the Unmarshal error",
+				"the reader refuses an entry for a reason other than a decoding failure: the store writes every entry raft hands it (configuration changes, barriers, no-ops), so an entry the store acknowledged cannot be read back and the store does not open again")
+		}
+		if nRet < 2 {
+			r.Break("C18.F2: only %d returns after the Unmarshal in %s", nRet, name)
+		}
+	}
 	r.Check(nEnc >= 3, "C18.F2", "module", "raft.Log -> pb.RaftLog encoder copies found", "-", itoa(nEnc)+" functions", "fewer encoder copies than expected (Apply, StoreLogs, ConvertToProto)")
 	r.Check(nDec >= 5, "C18.F2", "module", "pb.RaftLog -> raft.Log decoder copies found", "-", itoa(nDec)+" functions", "fewer decoder copies than expected (raftlog.FromBytes, GetLog, Snapshot, canary, log dump)")
 
@@ -1114,6 +1169,66 @@ func (c *Ctx) c18Batch() {
 			case "bytes":
 				r.Check(strings.HasPrefix(o.adv, "len("), "C18.F4", dec.Name(), "cursor advances by the byte length after "+trimRecv(o.item), c.P.Pos(o.pos), "n += len", "the cursor is not advanced by the data length after the bytes item")
 			}
+		}
+	}
+	// every item is written / read unconditionally: the counts in front of the lists are len(list), so an element
+	// that is skipped (or a loop that is left early) shifts everything that follows
+	for _, fi := range []*load.FuncInfo{enc, dec} {
+		info := fi.Info()
+		isCodec := func(n ast.Node) bool {
+			found := false
+			ast.Inspect(n, func(m ast.Node) bool {
+				switch x := m.(type) {
+				case *ast.CallExpr:
+					if _, mth := endianOf(info, x); mth != "" || astx.Builtin(info, x) == "copy" {
+						found = true
+					}
+				case *ast.AssignStmt:
+					if x.Tok == token.ADD_ASSIGN {
+						found = true
+					}
+				}
+				return !found
+			})
+			return found
+		}
+		nLoops := 0
+		var walk func(n ast.Node, inLoop bool)
+		walk = func(n ast.Node, inLoop bool) {
+			ast.Inspect(n, func(m ast.Node) bool {
+				if m == n {
+					return true
+				}
+				switch x := m.(type) {
+				case *ast.FuncLit:
+					return false
+				case *ast.RangeStmt:
+					nLoops++
+					walk(x.Body, true)
+					return false
+				case *ast.ForStmt:
+					nLoops++
+					walk(x.Body, true)
+					return false
+				case *ast.IfStmt, *ast.SwitchStmt, *ast.TypeSwitchStmt, *ast.SelectStmt:
+					if isCodec(x) {
+						r.Fail("C18.F4", fi.Name(), "codec items are written and read unconditionally", c.P.Pos(x.Pos()),
+							"an item of the batch encoding is produced or consumed only under a condition, while the element count written in front of the list is the full length: the reader takes the following bytes for the skipped elements (wrong recipients, garbage text or an out-of-range panic)")
+						return false
+					}
+				case *ast.BranchStmt:
+					if inLoop {
+						r.Fail("C18.F4", fi.Name(), "codec items are written and read unconditionally", c.P.Pos(x.Pos()),
+							"a codec loop skips or abandons elements ("+x.Tok.String()+"), while the element count written in front of the list is the full length: the reader takes the following bytes for the skipped elements")
+					}
+				}
+				return true
+			})
+		}
+		walk(fi.Body(), false)
+		r.Ok("C18.F4", fi.Name(), "codec loops inspected for conditional items", "-", itoa(nLoops)+" loops, straight-line bodies")
+		if nLoops < 2 {
+			r.Break("C18.F4: only %d loops found in %s", nLoops, fi.Name())
 		}
 	}
 	// size pre-computation
